@@ -4,7 +4,7 @@ The harness is the scheduler; kernel pops are translated into FIRE i (an item's 
 IDLE d (the clock moved); PROBE queries can_put()/can_get()/occupancy() and is followed by probe
 reservations (RPUT;CPUT / RGET;CGET) so that "true exactly when a reservation issued at that
 instant would be granted immediately" is checked literally."""
-import random, simpy
+import random, simpy, itertools
 from . import common
 
 FOREIGN = 1000
@@ -382,3 +382,66 @@ def gen_case(rng, n_ops):
             break
     case["ops"] = [list(o) for o in ops]
     return case
+
+
+def run_real(rng):
+    """The Buffer edge with decimal delays (0.125, 1/3, 1.005, ... -- not multiples of anything convenient): the implementation
+    alone.  An item put at t with drawn delay d is not among the ready items at any instant before t + d and is among them once the
+    events of t + d have run (unless taken).  Returns (case, violation message or None)."""
+    m = common.load("edges.buffer")
+    env = simpy.Environment()
+    vals = [rng.choice([0.125, 1 / 3, 1.005, 0.996, 0.0049, 0.07, 2.5, 0.3, 1.1]) for _ in range(rng.randrange(1, 5))]
+    style = rng.choice(["const", "callable", "generator"])
+    drawn = []
+    cyc = itertools.cycle(vals)
+
+    def draw():
+        v = next(cyc)
+        drawn.append(v)
+        return v
+    if style == "const":
+        d = vals[0]
+    elif style == "callable":
+        d = draw
+    else:
+        def g():
+            while True:
+                yield draw()
+        d = g()
+    cap = rng.choice([2, 3, 5])
+    buf = m.Buffer(env, "B", capacity=cap, delay=d, mode=rng.choice(["FIFO", "LIFO"]))
+    buf.src_node, buf.dest_node = object(), object()
+    st = buf.inbuiltstore
+    gaps = [rng.choice([0, 0.1, 0.25, 0.7, 1.3]) for _ in range(rng.randrange(2, 7))]
+    case = dict(model="tbuffer-real", cap=cap, style=style, vals=vals, gaps=gaps)
+    puts = []          # (object, put time, delay drawn for it)
+
+    class O:
+        id = "x"
+
+    def producer():
+        for g_ in gaps:
+            yield env.timeout(g_)
+            ev = buf.reserve_put()
+            yield ev
+            o = O()
+            k = len(drawn)
+            buf.put(ev, o)
+            puts.append((o, env.now, vals[0] if style == "const" else (drawn[k] if len(drawn) > k else None)))
+    env.process(producer())
+    bad = None
+    try:
+        while env.peek() < 40 and bad is None:
+            env.step()
+            if env.peek() > env.now:          # the instant is over
+                for (o, t, dd) in puts:
+                    if dd is None:
+                        bad = "no delay was drawn for an item put at %r" % t
+                    ready = any(o is x for x in st.ready_items)
+                    if ready and env.now < t + dd:
+                        bad = "an item put at %r with delay %r is available at %r, before %r" % (t, dd, env.now, t + dd)
+                    if not ready and env.now >= t + dd:
+                        bad = "an item put at %r with delay %r is still not available at %r" % (t, dd, env.now)
+    except Exception as ex:  # noqa
+        bad = "run raised %s" % type(ex).__name__
+    return case, bad
